@@ -230,8 +230,18 @@ impl<R: MkReloc> AsmM<R> {
         format!("ok addr={} moved={}", now, moved as u8)
     }
 }
+fn resolve_at(ws: &[&str], base: usize) -> Vec<String> {
+    ws.iter().map(|w| match w.strip_prefix('@').and_then(|d| d.parse::<i64>().ok()) {
+        Some(d) => format!("{}", (base as i64 + d) as usize),
+        None => w.to_string(),
+    }).collect()
+}
+
 impl<R: MkReloc> Machine for AsmM<R> {
     fn op(&mut self, ws: &[&str]) -> String {
+        let owned = resolve_at(ws, self.addr);
+        let ws: Vec<&str> = owned.iter().map(|s| s.as_str()).collect();
+        let ws = ws.as_slice();
         let Some(a) = self.a.as_mut() else { return "dead".into() };
         match ws {
             ["nd"] => format!("id {}", a.new_dynamic_label().get_id()),
@@ -274,6 +284,13 @@ impl<R: MkReloc> Machine for AsmM<R> {
             }
             "alter{" => {
                 let dyns = self.dyns.clone();
+                // `@N` targets inside a session are resolved against the address known before the session (the generator commits
+                // before opening a session that uses them, so the implicit commit of `alter` cannot move the buffer)
+                let resolved: Vec<String> = lines.iter().map(|l| {
+                    let ws: Vec<&str> = l.split_whitespace().collect();
+                    resolve_at(&ws, self.addr).join(" ")
+                }).collect();
+                let lines: &[String] = &resolved;
                 let a = self.a.as_mut().unwrap();
                 let mut inner: Vec<String> = Vec::new();
                 let mut ran = false;
